@@ -396,6 +396,74 @@ def check_assign(rep, proj, tier):
     rep.floor("assignment coefficients compared", n_entries, 4000)
 
 
+# ---------------------------------------------------------------------------
+# CKM masks reaching the weights in charged-current runs of every scheme
+# ---------------------------------------------------------------------------
+def _mask_job(kw):
+    from .. import model
+
+    proj = model.project()
+    try:
+        op = O.fold_op(proj, R.Cell(**kw))
+    except O.FoldFailure as f:
+        return ("fold", f.outcome.status, f"{f.outcome.etype} {f.outcome.msg}"[:140])
+    masks = set()
+    for key, (vals, errs) in op.orders.items():
+        for row in vals:
+            for e in row:
+                if isinstance(e, A.Rat):
+                    for a in e.atoms():
+                        m = re.match(r"w\((-?\d+), (?:None|'[A-Z]+'), '([^']*)'\)$", a)
+                        if m:
+                            masks.add(m.group(2))
+    return ("ok", sorted(masks))
+
+
+def check_masks(rep, proj, tier):
+    """CKM2Matrix.masked reads its argument as a set of single-letter flags (C02.ckm decides what each flag selects); decided here is the
+    caller side: in every charged-current run the mask handed to the weights is one of the documented spellings - the active massless
+    quarks as a prefix of eko's 'duscbt', or the single letter of a massive quark - and a flavour-tagged observable of a massive quark
+    carries the letter of that quark only."""
+    jobs = []
+    for kind, fl, (fns, nfff), projectile in itertools.product(["F2", "F3", "FL"], ["charm", "bottom", "top", "total", "light"],
+                                                               [("FFNS", 3), ("FFNS", 4), ("FFNS", 5), ("FONLL-FFNS", 4), ("ZM-VFNS", 4)], ["neutrino", "antineutrino"]):
+        if tier == "quick" and (projectile == "antineutrino" and kind != "F3" or kind == "FL" and fl in ("total", "light")):
+            continue
+        jobs.append(dict(obs=f"{kind}_{fl}", process="CC", projectile=projectile, fns=fns, nfff=nfff, nf=5 if fns == "ZM-VFNS" else None, pto=1, ren_sv=False, fact_sv=False))
+    outs = sweep.run_cells(_mask_job, jobs)
+    n = 0
+    LETTER = {"charm": "c", "bottom": "b", "top": "t"}
+    for kw, o in zip(jobs, outs):
+        label = f"{kw['obs']}|CC|{kw['projectile']}|{kw['fns']}|NfFF={kw['nfff']}"
+        if o[0] == "fold":
+            if o[1] == "rejected":
+                rep.ok("C02.mask", "", label, f"configuration explicitly rejected ({o[2][:50]})")
+            else:
+                rep.undecided("C02.mask", "", label, f"not foldable ({o[1]}): {o[2]}")
+            continue
+        masks = o[1]
+        n += 1
+        nl = kw["nfff"] if kw["fns"] != "ZM-VFNS" else kw["nf"]
+        # a mask is read flag by flag ("dus" in m, "c" in m, "b" in m, "t" in m - CKM2Matrix.masked): what counts is the set of flags it raises
+        def flags(m):
+            return frozenset(f for f in ("dus", "c", "b", "t") if f in m)
+
+        light = frozenset(["dus"] + [f for f, k in (("c", 4), ("b", 5), ("t", 6)) if nl >= k])
+        massive = {frozenset([f]) for f, k in (("c", 4), ("b", 5), ("t", 6)) if k > nl}
+        fl = kw["obs"].split("_")[1]
+        hq = {"charm": 4, "bottom": 5, "top": 6}.get(fl)
+        problems = []
+        for m in masks:
+            fm = flags(m)
+            if hq is not None:
+                if fm != frozenset([LETTER[fl]]):
+                    problems.append(f"the {fl}-tagged observable carries weights whose mask {m!r} opens the CKM groups {sorted(fm)} instead of ['{LETTER[fl]}'] only")
+            elif fm != light and fm not in massive:
+                problems.append(f"mask {m!r} opens the CKM groups {sorted(fm)}: neither the massless quarks {sorted(light)} nor a single massive quark")
+        rep.check(not problems, "C02.mask", "src/yadism/coefficient_functions/kernels.py", label, f"CKM masks {masks}", "; ".join(problems), key=label)
+    rep.floor("charged-current runs scanned for CKM masks", n, 30)
+
+
 def run(rep, proj, tier):
     rep.explanation = (
         "Decides, as identities in Q2, sin^2(theta_W), MZ, MW, beam polarisation, propagator correction and the nine CKM elements: "
@@ -419,4 +487,5 @@ def run(rep, proj, tier):
     check_weights(rep, proj)
     check_ww(rep, proj)
     check_lo(rep, proj, tier)
+    check_masks(rep, proj, tier)
     check_assign(rep, proj, tier)
